@@ -178,7 +178,9 @@ class Job:
         return o, calls
 
 
-def replay(sub, chunk):
+def replay_jobs(sub, chunk):
+    from breezy import ui
+    ui.ui_factory.suppressed_warnings.add("cross_format_fetch")
     rows = sub.cov.setdefault("_collect", [])
     for hist, config, cases in chunk:
         job = Job(hist, config)
@@ -267,7 +269,7 @@ def run(ctx):
     for w in WITNESSES:      # anti-vacuity: states TLC must reach
         tlc.check(ctx, "FetchMC", cfg_text=mc_cfg(3, 1, 3, inv=(w,), props=()), expect_violation=w, label="witness " + w, workers=4)
     # ---- E2: cases exported by TLC for a seeded sample of the universe
-    maxrev, nhist, per_hist = (4, 40, 5) if ctx.quick else (5, 400, 8)
+    maxrev, nhist, per_hist = (4, 40, 5) if ctx.quick else (5, 250, 6)
     total = fc.count_universe(maxrev, 2, 1)
     idx = sorted(ctx.rng.sample(range(1, total + 1), nhist))
     fidx = os.path.join(ctx.workdir, "idx.json")
@@ -284,7 +286,7 @@ def run(ctx):
     for hi, hist in enumerate(hists):
         for k, config in enumerate(configs):
             jobs.append((hist, config, pick_cases(hist, ctx.rng, per_hist, hi + k)))
-    core.fork_map(ctx, replay, jobs)
+    core.fork_map(ctx, replay_jobs, jobs)
     rows = ctx.collected
     if not rows:
         ctx.machinery("no execution was recorded")
@@ -294,13 +296,17 @@ def run(ctx):
              "yet in the target" % (maxrev, per_hist))
     ctx.cov["configurations"] = [c[0] for c in configs]
     ctx.cov["histories"] = nhist
-    # ---- E3: TLC judges the recorded executions
+    judge(ctx, rows)
+
+
+def judge(ctx, rows, selftest=True):
+    """E3: TLC judges the recorded executions with the laws of Fetch.tla."""
     slim = [{"c": r["c"], "impl": {k: v for k, v in r["impl"].items() if k not in ("detail", "dir1", "dir2")},
              "spec": r["spec"]} for r in rows]
     by_id = {id(s): r for s, r in zip(slim, rows)}
     ctx.sample({k: rows[len(rows) // 2][k] for k in ("c", "meta")})
     # binding self-test: corrupted copies of a good observation must be rejected by the same TLC run, each by its law
-    probes = selftest_rows(slim)
+    probes = selftest_rows(slim) if selftest else []
     expected = {id(p): law for p, law in probes}
     caught = set()
     for srow, failed, drift in table.judge(ctx, "FetchTrace", slim + [p for p, _ in probes], chunk=4000, workers=4, timeout=3000):
@@ -331,3 +337,18 @@ def run(ctx):
         if o.get("outcome") == "ok" and o.get("dir1") != o.get("dir2") and o.get("names1") == o.get("names2"):
             ctx.drift("second identical %s left pack-names alone but changed other repository files (%s)" % (
                 r["meta"]["op"], r["meta"]["config"]), r["meta"])
+
+
+def replay(ctx, rep):
+    """./check C03 --replay FILE: run the recorded case again on the current tree and judge it."""
+    env.init()
+    row = rep["replay"]
+    m, n = row["meta"], len(row["c"]["P"])
+    config = next(c for c in CONFIGS_THOROUGH if c[0] == m["config"])
+    hist = {"P": row["c"]["P"], "T": m["trees"], "signed": [k for k in range(1, n + 1) if k % 2], "idx": m["hist"],
+            "pat": m["pat"], "texts": row["spec"]["stexts"], "fpk": row["spec"]["sfp"]}
+    exp = {k: row["spec"][k] for k in ("revs", "invs", "texts", "sigs")}
+    replay_jobs(ctx, [(hist, config, [(m["S"], row["c"]["rev"], m["op"], exp)])])
+    rows = ctx.cov.pop("_collect")
+    print("observed:", json.dumps(rows[0]["impl"]))
+    judge(ctx, rows, selftest=False)
